@@ -2,6 +2,8 @@ import VlsModel.Lemmas.Monitor
 import VlsModel.Lemmas.MonitorValid
 import VlsModel.Lemmas.MonitorSim
 import VlsModel.Lemmas.MonitorPre
+import VlsModel.Lemmas.MonitorWF
+import VlsModel.Lemmas.MonitorChain
 /-
 C14 — The monitor's view of a channel is a function of the best chain.
 
@@ -37,6 +39,17 @@ What is proved, and under which hypotheses:
   `C14_stable_of_simple` (change list without `fundingConfirmed`/`unilateral`/`htlcSpent`) and
   `C14_stable_of_quiet` (`QuietBlock`).  Helper lemmas: `VlsModel/Lemmas/MonitorValid.lean`
   (detection reads only `State.core`), `MonitorSim.lean` (simulation argument), `MonitorPre.lean`.
+* `C14_wf_add_valid`, `C14_best_chain_valid_wf0`, `C14_reorg_no_abort_valid_wf0`: `WF` is preserved by
+  connecting a `ValidBlock`/`SpendFresh` block (`Lemmas/MonitorWF.lean`), so the history theorems need
+  `WF` of the initial state only (`ValidRun'`, invariant `VChain`).
+* `ConsensusValid`, `FundingShape`, `C14_valid_of_consensus`, `C14_best_chain_consensus`,
+  `C14_reorg_no_abort_consensus`: `ValidBlock`/`SpendFresh` are derived for every block of a chain
+  that is consensus-valid as a whole (distinct txids, every outpoint spent at most once, spends after
+  creation) and whose funding transaction spends the announced funding inputs, through the
+  representation invariant `Rep` (`Lemmas/MonitorChain.lean`); the history theorems then start from
+  `State.init` and have hypotheses on the chain only (plus: the run did not panic).
+* `C14_add_no_panic_of_detect`, `C14_no_abort_consensus_of_detect`: `on_add_block_end` never panics
+  on such a block; that the *scan* of the block (`detect`) does not panic is still a premise.
 * `C14_roundtrip_watches`: the watched outpoints (`ListenSlot`) are restored as sets for every
   block, HTLC and second-level spends included (full strength since fix fc0e6dd; the former
   counter-example is now the positive instance `C14_roundtrip_watches_htlc`).
@@ -716,5 +729,428 @@ example :
     (full.bind (fun d => removeBlock d.1 exSwSecond)).map
         (fun d => (d.1.closingSweptHeight, d.1.ourSweptHeight, d.1.isClosingSwept)) =
       some (none, some 107, false) := by decide
+
+/-! ### `WF` as an invariant: the history theorems without the per-step `WF` hypothesis -/
+
+/-- **`WF` is preserved by connecting a structurally valid block with fresh spends.** -/
+theorem C14_wf_add_valid {s s1 : State} {txs : List Tx} {a r : List OutPoint}
+    (hwf : WF s) (v : ValidBlock s txs) (f : SpendFresh s txs)
+    (hadd : addBlock s txs = some (s1, a, r)) : WF s1 := by
+  cases hdet : detect { s with sawBlock := true } txs with
+  | none => simp [addBlock, hdet] at hadd
+  | some cs => exact addBlock_WF hwf hdet (C14_pre_of_valid v f hdet) hadd
+
+/-- `WF` is preserved by disconnecting the block just connected (the round trip returns the
+well-formed pre-state). -/
+theorem C14_wf_remove_valid {s s1 : State} {txs : List Tx} {a r : List OutPoint}
+    (hwf : WF s) (v : ValidBlock s txs) (f : SpendFresh s txs)
+    (hadd : addBlock s txs = some (s1, a, r)) :
+    ∃ s2 a' r', removeBlock s1 txs = some (s2, a', r') ∧ WF s2 := by
+  obtain ⟨a', r', h, _⟩ := C14_roundtrip_valid hwf v f hadd
+  exact ⟨_, a', r', h, hwf⟩
+
+/-- every connection in the history is of a structurally valid block whose spends are fresh, and
+the listener does not panic while scanning the block (no `WF` hypothesis: it is an invariant) -/
+def ValidRun' : Cfg → List Op → Prop
+  | _, [] => True
+  | p, op :: ops =>
+    (match op with
+      | .add txs => ValidBlock p.1 txs ∧ SpendFresh p.1 txs ∧
+          detect { p.1 with sawBlock := true } txs ≠ none
+      | .remove => True) ∧
+    ∀ p', step p op = some p' → ValidRun' p' ops
+
+/-- invariant: `s` is the replay of the stack, every block having been connected at a well-formed
+state, structurally valid and with fresh spends -/
+def VChain (s0 : State) : List (List Tx) → State → Prop
+  | [], s => s = s0
+  | txs :: st, s => ∃ s' a r, VChain s0 st s' ∧ WF s' ∧ ValidBlock s' txs ∧ SpendFresh s' txs ∧
+      addBlock s' txs = some (s, a, r)
+
+theorem VChain.wf {s0 s : State} {st : List (List Tx)} (hwf : WF s0) (h : VChain s0 st s) :
+    WF s := by
+  cases st with
+  | nil => rw [show s = s0 from h]; exact hwf
+  | cons txs st =>
+    obtain ⟨s', a, r, _, w, v, f, hadd⟩ := h
+    exact C14_wf_add_valid w v f hadd
+
+theorem VChain.chain {s0 s : State} {st : List (List Tx)} (h : VChain s0 st s) :
+    Chain s0 st s := by
+  induction st generalizing s with
+  | nil => exact h
+  | cons txs st ih =>
+    obtain ⟨s', a, r, hc, w, v, f, hadd⟩ := h
+    refine ⟨s', a, r, ih hc, ?_, hadd⟩
+    cases hdet : detect { s' with sawBlock := true } txs with
+    | none => simp [addBlock, hdet] at hadd
+    | some cs => exact Good.of_valid w v f hdet
+
+theorem VChain.step {s0 s : State} {st : List (List Tx)} (h0 : s0.sawBlock = true)
+    (hwf : WF s0) (h : VChain s0 st s) (op : Op)
+    (hg : match op with
+      | .add txs => ValidBlock s txs ∧ SpendFresh s txs
+      | .remove => True) :
+    ∀ p', C14.step (s, st) op = some p' → VChain s0 p'.2 p'.1 := by
+  cases op with
+  | add txs =>
+    intro p' hp
+    obtain ⟨d, hd, rfl⟩ := Option.map_eq_some_iff.mp hp
+    obtain ⟨s1, a, r⟩ := d
+    exact ⟨s, a, r, h, h.wf hwf, hg.1, hg.2, hd⟩
+  | remove =>
+    cases st with
+    | nil => intro p' hp; simp [C14.step] at hp
+    | cons txs st =>
+      obtain ⟨s', a, r, hc, w, v, f, hadd⟩ := h
+      obtain ⟨a', r', hrem, _⟩ := C14_roundtrip_valid w v f hadd
+      rw [eq_of_sawBlock (hc.chain.sawBlock h0)] at hrem
+      intro p' hp
+      simp only [C14.step, hrem, Option.map_some, Option.some.injEq] at hp
+      subst hp
+      exact hc
+
+theorem VChain.run {s0 : State} (h0 : s0.sawBlock = true) (hwf : WF s0) {p p' : Cfg}
+    {ops : List Op} (h : VChain s0 p.2 p.1) (hg : ValidRun' p ops)
+    (hr : C14.run p ops = some p') : VChain s0 p'.2 p'.1 := by
+  induction ops generalizing p with
+  | nil => simp only [C14.run, Option.some.injEq] at hr; subst hr; exact h
+  | cons op ops ih =>
+    simp only [C14.run] at hr
+    cases hs : C14.step p op with
+    | none => simp [hs] at hr
+    | some q =>
+      simp only [hs] at hr
+      obtain ⟨s, st⟩ := p
+      refine ih (VChain.step h0 hwf h op ?_ q hs) (hg.2 q hs) hr
+      cases op with
+      | remove => trivial
+      | add txs => exact ⟨hg.1.1, hg.1.2.1⟩
+
+/-- **C14, best chain, structural form with `WF` as an invariant**: `WF` is required of the initial
+state only; at every connection only `ValidBlock`, `SpendFresh` and "detection did not panic". -/
+theorem C14_best_chain_valid_wf0 {s0 s : State} {st : List (List Tx)} {ops : List Op}
+    (h0 : s0.sawBlock = true) (hwf : WF s0) (hg : ValidRun' (s0, []) ops)
+    (hr : run (s0, []) ops = some (s, st)) :
+    replay s0 st = some s :=
+  (VChain.run h0 hwf (p := (s0, [])) rfl hg hr).chain.replay
+
+/-- the final state of such a history is well-formed -/
+theorem C14_wf_run_valid_wf0 {s0 s : State} {st : List (List Tx)} {ops : List Op}
+    (h0 : s0.sawBlock = true) (hwf : WF s0) (hg : ValidRun' (s0, []) ops)
+    (hr : run (s0, []) ops = some (s, st)) : WF s :=
+  (VChain.run h0 hwf (p := (s0, [])) rfl hg hr).wf hwf
+
+/-- **C14, a reorganisation never aborts, structural form with `WF` as an invariant** -/
+theorem C14_reorg_no_abort_valid_wf0 {s0 s : State} {st : List (List Tx)} {ops : List Op}
+    (h0 : s0.sawBlock = true) (hwf : WF s0) (hg : ValidRun' (s0, []) ops)
+    (hr : run (s0, []) ops = some (s, st)) (hne : st ≠ []) :
+    step (s, st) .remove ≠ none :=
+  (Chain.step h0 (VChain.run h0 hwf (p := (s0, [])) rfl hg hr).chain .remove trivial).2 rfl hne
+
+/-! ### Whole-chain consensus validity
+
+`ValidBlock` / `SpendFresh` are *relative to the monitor state*.  Here they are derived from a
+predicate on the chain alone (`ConsensusValid`: distinct txids, every outpoint spent at most once,
+spends after creation) plus the shape of the funding transaction (`FundingShape`), through the
+representation invariant `Rep` (`VlsModel/Lemmas/MonitorChain.lean`): every fact the monitor has
+recorded is about a txid / an input of the chain prefix it has seen. -/
+
+/-- consensus validity of a chain (bottom block first; `chain.flatten` = its transactions in chain
+order): txids pairwise distinct, every outpoint spent at most once, no input refers to the txid of
+the same or a later transaction. -/
+structure ConsensusValid (chain : List (List Tx)) : Prop where
+  txidsNodup : (chain.flatten.map (·.txid)).Nodup
+  inputsNodup : (chain.flatten.flatMap (·.inputs)).Nodup
+  topo : Topo chain.flatten
+
+/-- the transaction with the funding txid `ftx` spends (at least) the funding inputs `fins` the
+monitor was told about (`add_funding_inputs` is called with the inputs of the funding tx) -/
+def FundingShape (ftx : Nat) (fins : List OutPoint) (chain : List (List Tx)) : Prop :=
+  ∀ tx ∈ chain.flatten, tx.txid = ftx → ∀ inp ∈ fins, inp ∈ tx.inputs
+
+/-- `Rep` relative to a chain prefix -/
+def RepC (ftx : Nat) (fins : List OutPoint) (pre : List (List Tx)) (s : State) : Prop :=
+  Rep ftx fins (pre.flatten.map (·.txid)) (pre.flatten.flatMap (·.inputs)) s
+
+/-- **Per-prefix statement**: if the monitor state `s` represents the prefix `pre` of a
+consensus-valid, well-shaped chain, the next block `blk` is structurally valid and its spends are
+fresh relative to `s` (all fields of `ValidBlock` and `SpendFresh` are derived). -/
+theorem C14_valid_of_consensus {ftx : Nat} {fins : List OutPoint} {pre : List (List Tx)}
+    {blk : List Tx} {s : State}
+    (cv : ConsensusValid (pre ++ [blk])) (fs : FundingShape ftx fins (pre ++ [blk]))
+    (rp : RepC ftx fins pre s) : ValidBlock s blk ∧ SpendFresh s blk := by
+  obtain ⟨hx, hi, ht⟩ := cv
+  simp only [List.flatten_append, List.flatten_cons, List.flatten_nil, List.append_nil,
+    List.map_append, List.flatMap_append] at hx hi ht
+  obtain ⟨_, nx, dx⟩ := List.nodup_append.mp hx
+  obtain ⟨_, nd, di⟩ := List.nodup_append.mp hi
+  have notinI : ∀ op, op ∈ pre.flatten.flatMap (·.inputs) → op ∉ blk.flatMap (·.inputs) :=
+    fun op h h' => di op h op h' rfl
+  have notinX : ∀ x, x ∈ pre.flatten.map (·.txid) → x ∉ blk.map (·.txid) :=
+    fun x h h' => dx x h x h' rfl
+  have hft := rp.ft
+  constructor
+  · refine ⟨ht.suffix, noDoubleSpend_of_nodup nd, by rw [hft]; exact fundOnce_of_nodup nx,
+      ?_, ?_, ?_⟩
+    · intro h tx hm hc
+      rw [hft] at hc
+      simp only [List.mem_singleton] at hc
+      exact notinX ftx (rp.fo h) (List.mem_map.mpr ⟨tx, hm, hc⟩)
+    · intro h tx hm inp hin heq
+      obtain ⟨op, h1, h2⟩ := rp.cf h
+      rw [h1] at heq
+      have e : inp = op := Option.some.inj heq
+      rw [e] at hin
+      exact notinI op h2 (List.mem_flatMap.mpr ⟨tx, hm, hin⟩)
+    · intro h
+      obtain ⟨op, h1, _⟩ := rp.cf h
+      rw [h1]; rfl
+  · refine ⟨nd, nx, fun c i hc ho => notinI _ (rp.our c i hc ho),
+      fun c v i hc hp hs => notinI _ (rp.htlc c v i hc hp hs),
+      fun c e hc he hf => notinI _ (rp.sec c e hc he hf),
+      fun c e hc he => notinX _ (rp.secx c e hc he), rp.fh, rp.uh, ?_, ?_⟩
+    · intro h
+      obtain ⟨op, h1, h2⟩ := rp.mh h
+      refine ⟨by rw [h1]; rfl, ?_⟩
+      intro inp hin heq
+      rw [h1] at heq
+      have e : inp = op := Option.some.inj heq
+      rw [e] at hin
+      exact notinI op h2 hin
+    · rintro ⟨tx, hm, hc⟩
+      cases hd : s.dsHeight with
+      | none => rfl
+      | some x =>
+        exfalso
+        obtain ⟨inp, hf, hI⟩ := rp.ds (by simp [hd])
+        rw [hft] at hc
+        simp only [List.mem_singleton] at hc
+        have hin := fs tx (by simp [hm]) hc inp hf
+        exact notinI inp hI (List.mem_flatMap.mpr ⟨tx, hm, hin⟩)
+
+/-- **`Rep` is preserved by connecting the next block** -/
+theorem C14_rep_add_valid {ftx : Nat} {fins : List OutPoint} {pre : List (List Tx)}
+    {blk : List Tx} {s s1 : State} {a r : List OutPoint}
+    (rp : RepC ftx fins pre s) (v : ValidBlock s blk) (f : SpendFresh s blk)
+    (hadd : addBlock s blk = some (s1, a, r)) : RepC ftx fins (pre ++ [blk]) s1 := by
+  have := Rep.addBlock rp v.ok f.jinv f.inputsNodup f.txidsNodup hadd
+  simp only [RepC, List.flatten_append, List.flatten_cons, List.flatten_nil, List.append_nil,
+    List.map_append, List.flatMap_append]
+  exact this
+
+/-- the initial state of a channel stub represents the empty chain, and is well-formed -/
+theorem C14_rep_init (h ftx fvout : Nat) (inputs : List OutPoint) :
+    RepC ftx inputs [] (State.init h ftx fvout inputs) := Rep.init h ftx fvout inputs
+
+theorem C14_wf_init (h ftx fvout : Nat) (inputs : List OutPoint) :
+    WF (State.init h ftx fvout inputs) :=
+  ⟨fun _ => rfl, fun _ => rfl, fun _ hh => by cases hh⟩
+
+/-- along a `VChain` the state represents the stack (read bottom first) -/
+theorem VChain.rep {ftx : Nat} {fins : List OutPoint} {s0 s : State} {st : List (List Tx)}
+    (rp0 : RepC ftx fins [] s0) (h : VChain s0 st s) : RepC ftx fins st.reverse s := by
+  induction st generalizing s with
+  | nil => rw [show s = s0 from h]; exact rp0
+  | cons txs st ih =>
+    obtain ⟨s', a, r, hc, _, v, f, hadd⟩ := h
+    rw [List.reverse_cons]
+    exact C14_rep_add_valid (ih hc) v f hadd
+
+/-- the stack, read as a chain, is consensus-valid and the funding transaction is well-shaped -/
+def ChainOK (ftx : Nat) (fins : List OutPoint) (st : List (List Tx)) : Prop :=
+  ConsensusValid st.reverse ∧ FundingShape ftx fins st.reverse
+
+/-- every connection in the history extends the current chain to a consensus-valid, well-shaped
+chain (nothing is assumed about the monitor states) -/
+def ConsRun (ftx : Nat) (fins : List OutPoint) : Cfg → List Op → Prop
+  | _, [] => True
+  | p, op :: ops =>
+    (match op with
+      | .add txs => ChainOK ftx fins (txs :: p.2)
+      | .remove => True) ∧
+    ∀ p', step p op = some p' → ConsRun ftx fins p' ops
+
+theorem VChain.run_cons {ftx : Nat} {fins : List OutPoint} {s0 : State}
+    (h0 : s0.sawBlock = true) (hwf : WF s0) (rp0 : RepC ftx fins [] s0) {p p' : Cfg}
+    {ops : List Op} (h : VChain s0 p.2 p.1) (hg : ConsRun ftx fins p ops)
+    (hr : C14.run p ops = some p') : VChain s0 p'.2 p'.1 := by
+  induction ops generalizing p with
+  | nil => simp only [C14.run, Option.some.injEq] at hr; subst hr; exact h
+  | cons op ops ih =>
+    simp only [C14.run] at hr
+    cases hs : C14.step p op with
+    | none => simp [hs] at hr
+    | some q =>
+      simp only [hs] at hr
+      obtain ⟨s, st⟩ := p
+      refine ih (VChain.step h0 hwf h op ?_ q hs) (hg.2 q hs) hr
+      cases op with
+      | remove => trivial
+      | add txs =>
+        have hok : ChainOK ftx fins (txs :: st) := hg.1
+        obtain ⟨cv, fs⟩ := hok
+        rw [List.reverse_cons] at cv fs
+        exact C14_valid_of_consensus cv fs (h.rep rp0)
+
+/-- **C14, best chain, consensus form** (general initial state that has already seen a block):
+for every history of connections/disconnections starting from a well-formed `s0` representing the
+empty chain, in which every connection yields a consensus-valid, well-shaped chain and which did not
+panic, the final state is the replay of the surviving chain. -/
+theorem C14_best_chain_consensus_of {ftx : Nat} {fins : List OutPoint} {s0 s : State}
+    {st : List (List Tx)} {ops : List Op}
+    (h0 : s0.sawBlock = true) (hwf : WF s0) (rp0 : RepC ftx fins [] s0)
+    (hg : ConsRun ftx fins (s0, []) ops) (hr : run (s0, []) ops = some (s, st)) :
+    replay s0 st = some s :=
+  (VChain.run_cons h0 hwf rp0 (p := (s0, [])) rfl hg hr).chain.replay
+
+theorem C14_reorg_no_abort_consensus_of {ftx : Nat} {fins : List OutPoint} {s0 s : State}
+    {st : List (List Tx)} {ops : List Op}
+    (h0 : s0.sawBlock = true) (hwf : WF s0) (rp0 : RepC ftx fins [] s0)
+    (hg : ConsRun ftx fins (s0, []) ops) (hr : run (s0, []) ops = some (s, st)) (hne : st ≠ []) :
+    step (s, st) .remove ≠ none :=
+  (Chain.step h0 (VChain.run_cons h0 hwf rp0 (p := (s0, [])) rfl hg hr).chain .remove
+    trivial).2 rfl hne
+
+/-- in such a history the final state is well-formed, represents the surviving chain, and the next
+block of any consensus-valid extension is `ValidBlock`/`SpendFresh` -/
+theorem C14_run_consensus_inv {ftx : Nat} {fins : List OutPoint} {s0 s : State}
+    {st : List (List Tx)} {ops : List Op}
+    (h0 : s0.sawBlock = true) (hwf : WF s0) (rp0 : RepC ftx fins [] s0)
+    (hg : ConsRun ftx fins (s0, []) ops) (hr : run (s0, []) ops = some (s, st)) :
+    WF s ∧ RepC ftx fins st.reverse s :=
+  have h := VChain.run_cons h0 hwf rp0 (p := (s0, [])) rfl hg hr
+  ⟨h.wf hwf, h.rep rp0⟩
+
+/-! the same from the real initial state `State.init` (which has `sawBlock = false`; connection
+sets the flag for good, so the empty surviving chain is reached with the flag set) -/
+
+theorem step_sawBlock_nil (s0 : State) (op : Op) :
+    step ({ s0 with sawBlock := true }, []) op = step (s0, []) op := by
+  cases op <;> rfl
+
+theorem run_sawBlock_nil (s0 : State) (op : Op) (ops : List Op) :
+    run ({ s0 with sawBlock := true }, []) (op :: ops) = run (s0, []) (op :: ops) := by
+  simp only [run, step_sawBlock_nil]
+
+theorem replay_sawBlock (s0 : State) (b : List Tx) (st : List (List Tx)) :
+    replay { s0 with sawBlock := true } (b :: st) = replay s0 (b :: st) := by
+  induction st generalizing b with
+  | nil => rfl
+  | cons b' st ih =>
+    show (replay { s0 with sawBlock := true } (b' :: st)).bind _ = (replay s0 (b' :: st)).bind _
+    rw [ih]
+
+theorem ConsRun.sawBlock_nil {ftx : Nat} {fins : List OutPoint} {s0 : State} {ops : List Op}
+    (hg : ConsRun ftx fins (s0, []) ops) :
+    ConsRun ftx fins ({ s0 with sawBlock := true }, []) ops := by
+  cases ops with
+  | nil => trivial
+  | cons op ops =>
+    exact ⟨hg.1, fun p' hp => hg.2 p' (by rw [← hp, step_sawBlock_nil])⟩
+
+/-- **C14, best chain, consensus form**: start from the initial state of a channel stub
+(`State.init`: funding not confirmed, nothing closed).  For every history of block connections and
+disconnections in which every connection extends the current chain to a `ConsensusValid` chain
+whose funding transaction has the announced inputs (`FundingShape`), and which did not panic, the
+final monitor state equals the replay of the surviving chain (with the `saw_block` flag set if the
+surviving chain is empty but a block was connected before).  No hypothesis mentions the monitor
+state. -/
+theorem C14_best_chain_consensus {h ftx fvout : Nat} {inputs : List OutPoint} {s : State}
+    {st : List (List Tx)} {ops : List Op}
+    (hg : ConsRun ftx inputs (State.init h ftx fvout inputs, []) ops)
+    (hr : run (State.init h ftx fvout inputs, []) ops = some (s, st)) :
+    replay (State.init h ftx fvout inputs) st = some s ∨
+      (st = [] ∧ s = { State.init h ftx fvout inputs with sawBlock := true }) := by
+  cases ops with
+  | nil =>
+    simp only [run, Option.some.injEq, Prod.mk.injEq] at hr
+    obtain ⟨rfl, rfl⟩ := hr
+    exact Or.inl rfl
+  | cons op ops =>
+    rw [← run_sawBlock_nil] at hr
+    have k := C14_best_chain_consensus_of (ftx := ftx) (fins := inputs)
+      (s0 := { State.init h ftx fvout inputs with sawBlock := true }) rfl
+      (show WF _ from C14_wf_init h ftx fvout inputs) ((Rep.init h ftx fvout inputs).congr rfl)
+      hg.sawBlock_nil hr
+    cases st with
+    | nil =>
+      simp only [replay, Option.some.injEq] at k
+      exact Or.inr ⟨rfl, k.symm⟩
+    | cons b st => rw [replay_sawBlock] at k; exact Or.inl k
+
+/-- **C14, a reorganisation never aborts, consensus form**: in such a history, disconnecting the
+current tip does not panic. -/
+theorem C14_reorg_no_abort_consensus {h ftx fvout : Nat} {inputs : List OutPoint} {s : State}
+    {st : List (List Tx)} {ops : List Op}
+    (hg : ConsRun ftx inputs (State.init h ftx fvout inputs, []) ops)
+    (hr : run (State.init h ftx fvout inputs, []) ops = some (s, st)) (hne : st ≠ []) :
+    step (s, st) .remove ≠ none := by
+  cases ops with
+  | nil =>
+    simp only [run, Option.some.injEq, Prod.mk.injEq] at hr
+    exact absurd hr.2.symm hne
+  | cons op ops =>
+    rw [← run_sawBlock_nil] at hr
+    exact C14_reorg_no_abort_consensus_of (ftx := ftx) (fins := inputs)
+      (s0 := { State.init h ftx fvout inputs with sawBlock := true }) rfl
+      (show WF _ from C14_wf_init h ftx fvout inputs) ((Rep.init h ftx fvout inputs).congr rfl)
+      hg.sawBlock_nil hr hne
+
+/-! ### No panic on connection (partial: the scan of the block itself is still a premise) -/
+
+/-- **`on_add_block_end` does not panic** for a structurally valid block with fresh spends: if the
+listener scanned the block without panic (`detect ≠ none`), the whole connection does not panic
+(every detected change is applicable, `applyForward_of_pre`). -/
+theorem C14_add_no_panic_of_detect {s : State} {txs : List Tx}
+    (v : ValidBlock s txs) (f : SpendFresh s txs)
+    (hd : detect { s with sawBlock := true } txs ≠ none) : addBlock s txs ≠ none := by
+  cases hdet : detect { s with sawBlock := true } txs with
+  | none => exact absurd hdet hd
+  | some cs =>
+    have hp := C14_pre_of_valid v f hdet
+    obtain ⟨s1, a, r, h⟩ := addEnd_of_preAll (s := { s with sawBlock := true }) hp
+    simp only [addBlock, hdet, h]
+    simp
+
+/-- **Neither connecting nor disconnecting the next block of a consensus-valid, well-shaped chain
+panics**, provided the scan of the block does not (`detect ≠ none`); the post-state is again
+well-formed and represents the extended chain, and the disconnection restores the pre-state. -/
+theorem C14_no_abort_consensus_of_detect {ftx : Nat} {fins : List OutPoint}
+    {pre : List (List Tx)} {blk : List Tx} {s : State}
+    (hwf : WF s) (rp : RepC ftx fins pre s)
+    (cv : ConsensusValid (pre ++ [blk])) (fs : FundingShape ftx fins (pre ++ [blk]))
+    (hd : detect { s with sawBlock := true } blk ≠ none) :
+    ∃ s1 a r, addBlock s blk = some (s1, a, r) ∧ WF s1 ∧ RepC ftx fins (pre ++ [blk]) s1 ∧
+      ∃ a' r', removeBlock s1 blk = some ({ s with sawBlock := true }, a', r') ∧
+        a'.Perm a ∧ r'.Perm r := by
+  obtain ⟨v, f⟩ := C14_valid_of_consensus cv fs rp
+  cases hadd : addBlock s blk with
+  | none => exact absurd hadd (C14_add_no_panic_of_detect v f hd)
+  | some d =>
+    obtain ⟨s1, a, r⟩ := d
+    exact ⟨s1, a, r, rfl, C14_wf_add_valid hwf v f hadd, C14_rep_add_valid rp v f hadd,
+      C14_roundtrip_valid hwf v f hadd⟩
+
+/-! non-vacuity of the consensus form: funding block, then close + sweep in one block, then a
+disconnection; the hypotheses are about the chain only -/
+
+example : ConsRun 7 [(1, 0)] (exS0, []) [.add exFundingBlock, .add exCloseSweepBlock, .remove] := by
+  have cv1 : ChainOK 7 [(1, 0)] [exFundingBlock] :=
+    ⟨⟨by decide, by decide, by simp [Topo, exFundingBlock]⟩, by simp [FundingShape, exFundingBlock]⟩
+  have cv2 : ChainOK 7 [(1, 0)] [exCloseSweepBlock, exFundingBlock] :=
+    ⟨⟨by decide, by decide, by simp [Topo, exFundingBlock, exCloseSweepBlock]⟩,
+      by simp [FundingShape, exFundingBlock, exCloseSweepBlock]⟩
+  refine ⟨cv1, fun p' hp => ?_⟩
+  simp only [step] at hp
+  obtain ⟨d, _, rfl⟩ := Option.map_eq_some_iff.mp hp
+  refine ⟨cv2, fun p'' hp' => ?_⟩
+  simp only [step] at hp'
+  obtain ⟨d', _, rfl⟩ := Option.map_eq_some_iff.mp hp'
+  exact ⟨trivial, fun _ _ => trivial⟩
+
+example : (run (exS0, []) [.add exFundingBlock, .add exCloseSweepBlock, .remove]).map
+    (fun p => (p.1.height, p.1.fundingHeight, p.1.closing, p.2)) =
+    some (101, some 101, none, [exFundingBlock]) := by decide
 
 end VlsModel.Props.C14
